@@ -1,4 +1,5 @@
 import GuppyVerif.Lemmas.C14Misc
+import GuppyVerif.Lemmas.C14HugrSubst
 import GuppyVerif.Gen.C14TypeDefs
 /-! # C14 — Copy/drop classification is structural and matches HUGR bounds
 
@@ -127,6 +128,56 @@ theorem affine_requires_drop_partial {aff : List String} {D : List OpaqueDef} (h
     have := (bound_iff_copyable_partial hT hA t h hh hnp).mp hb
     rw [haff.2] at this
     cases this
+
+/-- **C14 (`to_hugr` is structural)**: a tuple lowers to a `Sum` with the single row of its elements' HUGR
+    types; a struct to the single row of the HUGR types of its fields *instantiated with the arguments*
+    (`StructType.fields`); a bound variable to `Variable(idx, Copyable iff copyable)`. -/
+theorem toHugr_structural (D : List OpaqueDef) :
+    (∀ ts p, toHugr D (.tuple ts p) = (toHugrEList D [] ts).map tupleOf) ∧
+    (∀ n as fs fields, Ty.structFields as fs = some fields →
+      toHugr D (.struct n as fs) = (toHugrEList D [] fields).map tupleOf) ∧
+    (∀ n i c d, toHugr D (.bvar n i c d) = some (.var i (flagB c))) := by
+  refine ⟨?_, ?_, ?_⟩
+  · intro ts p
+    simp only [toHugr, toHugrE]
+    cases toHugrEList D [] ts <;> rfl
+  · intro n as fs fields hf
+    have := toHugrEList_subst D fs as [] fields hf
+    simp only [List.append_nil] at this
+    simp only [toHugr, toHugrE, this]
+    cases toHugrEList D (envArgs D [] as) fs <;> rfl
+  · intro n i c d
+    simp [toHugr, toHugrE, varH]
+
+/-- **C14 (`to_hugr` shapes of the builtin generic types)**: for any table in which the definition `n` has
+    the given shape — `Option[T]` is the sum `[[], [T]]`, `array[T, n]` the `borrow_array<n, T>`,
+    `frozenarray[T, n]` the `static_array<T>` (defined only for Copyable `T`), `SizedIter[T, n]` the
+    underlying `T`. -/
+theorem toHugr_shapes {D : List OpaqueDef} {n : String} {d : OpaqueDef} (hl : lookup D n = some d)
+    (t : Ty) (c : Const) :
+    (d.shape = .option → toHugr D (.opaque n [.ty t]) = (toHugr D t).map optionOf) ∧
+    (∀ e r, d.shape = .array e r → toHugr D (.opaque n [.ty t, .const c]) =
+      (toHugr D t).bind (fun h => (constArgE [] c).map (fun a => .ext e r [a, .ty h]))) ∧
+    (∀ e r, d.shape = .staticArray e r → toHugr D (.opaque n [.ty t, .const c]) =
+      (toHugr D t).bind (fun h => if typeBound h = .copyable then some (.ext e r [.ty h]) else none)) ∧
+    (d.shape = .underlying → toHugr D (.opaque n [.ty t, .const c]) = toHugr D t) := by
+  refine ⟨?_, ?_, ?_, ?_⟩
+  · intro hs; simp only [toHugr, toHugrE, hl, hs]; cases toHugrE D [] t <;> rfl
+  · intro e r hs; simp only [toHugr, toHugrE, hl, hs]
+    cases toHugrE D [] t <;> cases constArgE [] c <;> rfl
+  · intro e r hs; simp only [toHugr, toHugrE, hl, hs]; cases toHugrE D [] t <;> rfl
+  · intro hs; simp only [toHugr, toHugrE, hl, hs]
+
+/-- the regenerated table gives `Option`, `array`, `frozenarray`, `SizedIter` those shapes, with the HUGR
+    extension types `borrow_array` (explicitly Linear) and `static_array` (bound of its element) -/
+theorem gen_shapes :
+    (∃ d, lookup Gen.typeDefs "Option" = some d ∧ d.shape = .option) ∧
+    (∃ d, lookup Gen.typeDefs "array" = some d ∧
+      d.shape = .array "collections.borrow_arr.borrow_array" (.explicit .linear)) ∧
+    (∃ d, lookup Gen.typeDefs "frozenarray" = some d ∧
+      d.shape = .staticArray "collections.static_array.static_array" .joinArgs) ∧
+    (∃ d, lookup Gen.typeDefs "SizedIter" = some d ∧ d.shape = .underlying) := by
+  refine ⟨?_, ?_, ?_, ?_⟩ <;> simp [lookup, Gen.typeDefs]
 
 /-- `Ph[qubit, 0]` for `@guppy.struct class Ph[T, n: nat]: x: int` -/
 def phantomLinear : Ty :=
